@@ -228,6 +228,50 @@ CHECKS["C14"] = dict(
     technique="Coq invariant proof over operation lists + exhaustive small-scope and random differential testing + brute-force oracle",
     design="5/C14")
 
+CHECKS["C04"] = dict(
+    text="Coq proofs (21 theorems, induction over relay lists of any length, AEAD as a Section variable with correctness / ideal "
+         "authenticity / key-direction separation / fixed growth): data sent into a ready circuit reaches the exit socket - and returned "
+         "data the originator - byte for byte with the right destination, origin and circuit id; every link carries the message under "
+         "exactly the remaining hops' layers, so no two links show the same bytes or the plaintext; cells altered, spliced or injected "
+         "without the layer key, plaintext-flagged cells and cells for unknown ids are dropped without effect; hidden-service circuits "
+         "add an innermost layer the rendezvous point never opens. Real TunnelCommunity / HiddenTunnelCommunity nodes (1-3 hop circuits "
+         "alive together, rendezvous pair) are compared with the model event by event in lockstep (real ciphertexts rendered into a toy "
+         "AEAD), incl. flips of every header byte and sampled/all body bytes, truncation, extension, splices, injections; an independent "
+         "oracle peels layers with raw SessionKeys.",
+    note="AEAD assumed ideal; per-hop keys distinct; Rust endpoint fast path not modelled; relay_early budget is a hypothesis of the path "
+         "predicates; DNS stubbed; the 'packet meant for another community' branch of on_data is not exercised by the correspondence. "
+         "Model follows fix 1587225.",
+    technique="Coq proofs by induction over relay lists on an abstract-AEAD model + lockstep differential testing evaluated in Coq + oracle",
+    design="5/C04")
+CHECKS["C05"] = dict(
+    text="Coq proofs (17 theorems): no cell of any content or origin changes routing entries through the data plane (only counters move); "
+         "handlers see the header's circuit id; data leaves only through the exit socket whose key opened it and reaches only the circuit "
+         "of the originator whose keys opened it, from that circuit's first hop; a create under an id in use changes nothing; a destroy "
+         "removes an entry only when signed by the stored neighbour, and only at the next removal tick; the table invariant holds and "
+         "entries are never re-keyed over every history of cells, control messages, timers and forgeries (tables_inv). Real nodes with up "
+         "to 4 (quick) / 6 (thorough) concurrent circuits over shared relays under random delivery order, forged cells, creates under "
+         "live ids and the destroy matrix agree with the model event by event; oracle from topology, tagged payloads and object identities.",
+    note="AEAD ideal; destroy signature check trusted as in C01; key agreement, payload parsing and candidate choice are oracles; random-id "
+         "collisions (2^-32) assumed away; originator-side circuit construction is C08's; do_ping disabled in harness nodes. 'Relay "
+         "entries come in inverse pairs' holds at creation only (not an invariant of the code). Model follows fix 6c217ee.",
+    technique="Coq invariant proof over operation histories + inversion lemmas on the data-plane model + lockstep differential testing",
+    design="5/C05")
+CHECKS["C11"] = dict(
+    text="Coq proofs (17 theorems) over models of the endpoint listener table (incl. the TunnelEndpoint and StatisticsEndpoint wrappers), "
+         "of TaskManager at the level of asyncio's ready queue, and of their composition per overlay instance: once a complete unload() "
+         "has run - with anything interleaved - the overlay is never called by the endpoint again, runs no task or timeout, answers every "
+         "registration with a completed future, creates no task, keeps every exit socket closed; while loaded a name with an active task "
+         "is refused and replace_task registers the new task only after the old one is done. The unload() step lists of all 8 shipped "
+         "overlay classes and the wrappers' listener methods are re-translated from the source every run and proved complete. Compared "
+         "with the real classes on exhaustive and random histories and on unload at every step of scripted protocol runs (default "
+         "settings, simnet, virtual time), followed by late datagrams of every id, API probes and 2 hours of virtual time.",
+    note="Trusted: Coq kernel; tr_lifecycle; hand models and the harness (simnet, virtual-time loop, fake transports, executor jobs inline, "
+         "spies). Model assumption: an overlay acts only on a delivered datagram, in a live task of one of its managers, on a datagram at "
+         "an open transport, or on an API call; a task asked to stop performs no further action. Not modelled: bootstrappers, executor "
+         "threads, DNS, OS-level socket release, hidden-service e2e/PEX. Model follows fixes cd5ba9d, 6d52230, a03856b, c066f09, 7a32c90.",
+    technique="invariant/refinement proofs over Gallina state machines + fail-closed AST translation of unload() + exhaustive/random correspondence",
+    design="5/C11")
+
 NOT_APPLICABLE = {}
 
 
